@@ -193,7 +193,7 @@ def main():
         if qi % 4 == 0:
             ck.sample(dict(sql=sql, privacy_unit=pun, dp_event=ans["ok"]["dp_event_s"].strip()))
     from common import budgeted
-    built, results = budgeted(ck, tasks, build_task, lambda qs: smt.solve_all(qs, tq, workers=14, progress=200), tier)
+    built, results = budgeted(ck, tasks, build_task, lambda qs: smt.replayable_models(qs, smt.solve_all(qs, tq, workers=14, progress=200), tq, workers=14), tier)
     for res in built:
         if "unsupported" in res:
             stats["unsupported"][res["unsupported"]] = stats["unsupported"].get(res["unsupported"], 0) + 1
